@@ -145,6 +145,9 @@ func VerifC20Cycle() {
 	w.conn.faultBudget = vsymParam("faults")
 	a := w.db.AddBox("A", "mb-A", 2)
 	b := w.db.AddBox("B", "mb-B", 3)
+	if vsymParam("drafts") == 1 { // the target is the Drafts mailbox: APPEND erases the ID header and always creates
+		b.Attrs = []string{imap.AttrDrafts}
+	}
 	rec := w.db.BoxByID(w.user.recovery.InternalID)
 	// a live message in A, stored with its internal-ID header (as FETCH BODY[] would return it)
 	m0 := w.addMessage(a, 1)
